@@ -144,7 +144,6 @@ class Project:
                     raise AnalysisError(f'cannot parse {rel}: {e}')
                 from .normalize import normalize
                 tree = normalize(tree)
-                set_parents(tree)
                 modname = rel[:-3].replace(os.sep, '.')
                 if modname.endswith('.__init__'):
                     modname = modname[: -len('.__init__')]
@@ -152,6 +151,16 @@ class Project:
                 m.is_pkg = fn == '__init__.py'
                 self.modules[modname] = m
         self.digest = h.hexdigest()
+        # calls of helpers that are not part of the reference layout are expanded in place (see sa/inline.py)
+        from .inline import Inliner
+        from .normalize import normalize
+        self.inline_log = []
+        if not os.environ.get('SA_NO_INLINE'):
+            if Inliner(self.modules, log=self.inline_log).run():
+                for m in self.modules.values():
+                    m.tree = normalize(m.tree)
+        for m in self.modules.values():
+            set_parents(m.tree)
         for m in self.modules.values():
             self._index_module(m)
 
